@@ -107,6 +107,15 @@ def transcendental_lemmas(ts):
         L.append(T.implies(T.le(x, 0), T.le(e, 1)))  # exp_le_one
         L.append(T.implies(T.le(0, x), T.le(1, e)))  # one_le_exp
         L.append(T.implies(T.eq(x, 0), T.eq(e, one)))
+    # functional equations (Real.log_exp, Real.exp_log, Real.rpow_def_of_pos): an algebraically
+    # equivalent rewrite of a formula must not turn into a spurious counter-model
+    for e in exps:
+        L.append(T.eq(T.ulog(e), e.args[0]))
+    for l in logs:
+        L.append(T.implies(T.lt(0, l.args[0]), T.eq(T.uexp(l), l.args[0])))
+    for p in pows:
+        x, y = p.args
+        L.append(T.implies(T.lt(0, x), T.eq(p, T.uexp(T.mul(y, T.ulog(x))))))
     for i in range(len(exps)):
         for j in range(i + 1, len(exps)):
             a, b = exps[i], exps[j]
